@@ -78,8 +78,13 @@ def run(ctx, rep):
     rep.rule("R05-SIZE", "each to_ex_budget arm reads only its own cost field; mem and cpu receive token-identical size arguments", floor=91)
     rep.rule("R05-VORDER", "ParamName::V1/V2/V3: no duplicates, each builtin's parameters contiguous, ascending within the builtin, and ordered identically in the three lists", floor=300)
     rep.rule("R05-MEASURE", "constants and Data leaves of the same kind are sized by the same measure function", floor=6)
+    rep.rule("R05-FAMILY", "division builtins: divide/mod share the cpu model shape, quotient/remainder too; divide/quotient and mod/remainder share the memory model shape, per semantics variant", floor=20)
+    rep.guarded("R05-FAMILY", lambda: r_family(sh, rep))
     rep.guarded("R05-VORDER", lambda: r_vorder(sh, rep))
     rep.guarded("R05-MEASURE", lambda: r_measure(sh, rep))
+    from . import c04
+    rep.rule("R05-BIGINTSITE", "no size measure decodes Data big integers by hand (shared with C04)", floor=2)
+    rep.guarded("R05-BIGINTSITE", lambda: c04.r_bigintsites(sh, rep, "R05-BIGINTSITE"))
     rep.guarded("R05-STEP", lambda: r_step(sh, rep))
     rep.guarded("R05-STEPKIND", lambda: r_stepkind(sh, rep))
     rep.guarded("R05-STARTUP", lambda: r_startup(sh, rep))
@@ -616,3 +621,58 @@ def r_measure(sh, rep):
     for v in MEASURE_DATA:
         if v not in seen:
             rep.bad("R05-MEASURE", "data_to_ex_mem_inner#%s#missing" % v, sh.loc(V, m), "no arm for PlutusData::%s" % v)
+
+
+# ---------------------------------------------------------------------------------------------------------
+# R05-FAMILY: the four integer-division builtins keep their sibling costing shapes under every semantics variant
+# ---------------------------------------------------------------------------------------------------------
+def _cost_shape(e):
+    """constructor skeleton of a costing expression, parameters ignored"""
+    if e["k"] == "Call" and e["f"]["k"] == "Path":
+        if last(e["f"]["p"]) == "get":
+            return ""
+        inner = [_cost_shape(a) for a in e["args"]]
+        return last(e["f"]["p"]) + "(" + ",".join(i for i in inner if i) + ")"
+    if e["k"] == "Struct":
+        inner = [_cost_shape(fi["e"]) for fi in e["fields"]]
+        inner = [i for i in inner if i]
+        return last(e["p"]) + ("{" + ",".join(inner) + "}" if inner else "")
+    if e["k"] == "Block" and len(e["stmts"]) == 1 and e["stmts"][0]["k"] == "ExprStmt":
+        return _cost_shape(e["stmts"][0]["e"])
+    return ""
+
+
+def r_family(sh, rep):
+    """Plutus costs divideInteger and modInteger with one cpu model and quotientInteger / remainderInteger with another; the
+    memory model is shared by the two quotient-like and by the two remainder-like builtins. The wiring is written out four
+    times per semantics variant; the copies must keep the same shape (which constructor, which nested model)."""
+    fj = sh.file(CM)
+    f = [fn for q, fn in all_fns(fj) if q.endswith("initialize_cost_model_with_semantics")]
+    if not f:
+        raise AnchorMissing("fn initialize_cost_model_with_semantics")
+    sem = [v["name"] for v in find_enum(sh.file("crates/uplc/src/machine/runtime.rs"), "BuiltinSemantics")["variants"]]
+    tab = {}
+    for n in walk(f[0]["body"]):
+        if n["k"] == "FieldInit" and n["name"] in ("divide_integer", "mod_integer", "quotient_integer", "remainder_integer") and n["e"]["k"] == "Struct":
+            d = {fi["name"]: fi["e"] for fi in n["e"]["fields"]}
+            for dim in ("mem", "cpu"):
+                e = d.get(dim)
+                if e is None:
+                    continue
+                if e["k"] == "Match":
+                    for a in e["arms"]:
+                        for alt in pat_alts(a["pat"]):
+                            h = pat_head(alt)
+                            for s_ in (sem if h is None else [last(h)]):
+                                tab.setdefault((n["name"], dim, s_), _cost_shape(a["body"]))
+                else:
+                    for s_ in sem:
+                        tab[(n["name"], dim, s_)] = _cost_shape(e)
+    pairs = [("cpu", "divide_integer", "mod_integer"), ("cpu", "quotient_integer", "remainder_integer"), ("mem", "divide_integer", "quotient_integer"), ("mem", "mod_integer", "remainder_integer")]
+    for dim, a, b in pairs:
+        for s_ in sem:
+            sa, sb = tab.get((a, dim, s_)), tab.get((b, dim, s_))
+            if sa is None or sb is None:
+                rep.bad("R05-FAMILY", "%s/%s#%s#%s#missing" % (a, b, dim, s_), CM, "no %s costing found for %s or %s under semantics %s" % (dim, a, b, s_))
+                continue
+            rep.check(sa == sb, "R05-FAMILY", "%s=%s#%s#%s" % (a, b, dim, s_), CM, "under semantics %s the %s costing of %s has shape %s but its sibling %s has %s: the ledger uses one model for both, so one of the two is billed by the wrong function for some argument sizes" % (s_, dim, a, sa, b, sb), sample={"shape": sa})
